@@ -30,6 +30,7 @@ struct MeshOpts {
 	bool alwaysNormals = false;
 	bool alwaysUvs = true;
 	float coordRange = 512.0f;
+	bool allowDegenerate = false; // keep triangles with a repeated index (in range, so structurally valid)
 };
 
 inline uint64_t triKey(const nifly::Triangle& t) {
@@ -90,7 +91,7 @@ inline Mesh genMesh(Tape& t, const MeshOpts& o) {
 			tr.p1 = static_cast<uint16_t>(t.range(0, maxIdx));
 			tr.p2 = static_cast<uint16_t>(t.range(0, maxIdx));
 			tr.p3 = static_cast<uint16_t>(t.range(0, maxIdx));
-			if (tr.p1 == tr.p2 || tr.p2 == tr.p3 || tr.p1 == tr.p3) {
+			if ((tr.p1 == tr.p2 || tr.p2 == tr.p3 || tr.p1 == tr.p3) && !o.allowDegenerate) {
 				// repair into a valid triangle deterministically
 				tr.p2 = static_cast<uint16_t>((tr.p1 + 1) % nv);
 				tr.p3 = static_cast<uint16_t>((tr.p1 + 2) % nv);
